@@ -347,6 +347,12 @@ def parseAcl (aclS : String) : Acl :=
 def World.useDb (w : World) (k : Nat) : World :=
   { w with curDb := k, acl := ((w.dbAcls.find? (·.1 == k)).map (·.2)).getD w.acl }
 
+/-- two distinct entries with the same (Lamport time, writer): the dependency's default sort is
+order-dependent on them (C01's stated assumption excludes it; an identity that writes on a store that
+has not loaded its own head — after `LoadFromSnapshot` of an older snapshot — produces one) -/
+def hasTie (es : List Entry) : Bool :=
+  es.any (fun a => es.any (fun b => a.hash != b.hash && a.time == b.time && a.cid == b.cid))
+
 def World.onObs1 (w : World) (toks : List String) : World :=
   let p := peerNum (toks.getD 1 "")
   if toks.getD 2 "" == "closed" then w else
@@ -361,22 +367,25 @@ def World.onObs1 (w : World) (toks : List String) : World :=
   let iremote := cacheField (arg toks "remote")
   let prev := w.obsOf p
   let lim : Option (Nat × Int × List Nat) := w.limited.find? (fun x => x.1 == w.key p)
+  -- with tied entries the ORDER of the listing is not determined: orders are compared as sets
+  let tied := hasTie (w.entriesOf iv)
+  let same (a b : List Nat) : Bool := if tied then sortNums a == sortNums b else a == b
   -- C15: what a load with a limit must show
   let w := match lim with
     | none => w
     | some (_, n, full) =>
       let total := full.length
       if n ≤ 0 then
-        if iv != full then w.fail "C15" "all" s!"peer {p}: Load({n}) lists {showNums iv}, the persisted log is {showNums full}" else w
+        if !same iv full then w.fail "C15" "all" s!"peer {p}: Load({n}) lists {showNums iv}, the persisted log is {showNums full}" else w
       else
         let want := min n.toNat total
         let w := if iv.length != want then w.fail "C15" "count" s!"peer {p}: Load({n}) lists {iv.length} entries ({showNums iv}), expected {want} of {showNums full}" else w
-        let w := if !isSubseq iv full then w.fail "C15" "order" s!"peer {p}: Load({n}) lists {showNums iv}, not in the order of {showNums full}" else w
+        let w := if !tied && !isSubseq iv full then w.fail "C15" "order" s!"peer {p}: Load({n}) lists {showNums iv}, not in the order of {showNums full}" else w
         let w := match full.getLast? with
           | some newest => if want > 0 && !iv.contains newest then w.fail "C15" "newest" s!"peer {p}: Load({n}) lists {showNums iv} without the newest entry e{newest}" else w
           | none => w
         let single := ((w.entriesOf full).map (fun (e : Entry) => e.cid)).eraseDups.length ≤ 1
-        if single && iv != full.drop (total - want) then
+        if single && !tied && iv != full.drop (total - want) then
           w.fail "C15" "recent" s!"peer {p}: single-writer log, Load({n}) lists {showNums iv}, the {want} most recent are {showNums (full.drop (total - want))}" else w
   -- C05 (recover): the implementation's own listing after a clean restart and an unlimited load
   -- contains everything it listed at rest, or acknowledged, before the restart
@@ -425,9 +434,9 @@ def World.onObs1 (w : World) (toks : List String) : World :=
     else (w, s)
   -- correspondence
   let mv := (values s.log).map (·.hash)
-  let w := if mv != iv then w.fail "corr" "values" s!"peer {p}: model {showNums mv}, implementation {showNums iv}" else w
+  let w := if !same mv iv then w.fail "corr" "values" s!"peer {p}: model {showNums mv}, implementation {showNums iv}" else w
   let mh := (sortedHeads s.log).map (·.hash)
-  let w := if mh != ih then w.fail "corr" "heads" s!"peer {p}: model {showNums mh}, implementation {showNums ih}" else w
+  let w := if !same mh ih then w.fail "corr" "heads" s!"peer {p}: model {showNums mh}, implementation {showNums ih}" else w
   let w := if s.log.entries.length != ilen && !isPartial then w.fail "corr" "len" s!"peer {p}: model {s.log.entries.length}, implementation {ilen}" else w
   let w := if s.localHeads != ilocal then w.fail "corr" "local" s!"peer {p}: model {s.localHeads.map showNums}, implementation {arg toks "local"}" else w
   let w := if s.remoteHeads != iremote then w.fail "corr" "remote" s!"peer {p}: model {s.remoteHeads.map showNums}, implementation {arg toks "remote"}" else w
@@ -479,7 +488,7 @@ def World.onObs1 (w : World) (toks : List String) : World :=
   let key := sortNums iv
   let stateS := s!"values={showNums iv} heads={showNums ih} idx={idxS}"
   let w := match w.states.find? (fun (x : List Nat × String) => x.1 == key) with
-    | some (_, st) => if st != stateS then w.fail "C01" "state" s!"peer {p}: same entries, different state: [{stateS}] vs [{st}]" else w
+    | some (_, st) => if st != stateS && !tied then w.fail "C01" "state" s!"peer {p}: same entries, different state: [{stateS}] vs [{st}]" else w
     | none => { w with states := (key, stateS) :: w.states }
   -- C19: never regresses; at rest with a complete log progress = max ∈ [maxTime, len]
   let w := if prev.seen && (ist.1 < prev.status.1 || ist.2 < prev.status.2) then
